@@ -702,8 +702,11 @@ func emitHandshakeResults(run *Run, res []hsResult) {
 		"file": {"file_case", "file_mismatches tls_ca_pool_cached"},
 	}
 	for _, h := range res {
-		if h.Kind == "skip" { // recorded in the distribution only
+		if h.Kind == "skip" { // recorded in the distribution only (plus an additional finder verdict, if any)
 			run.Count(h.Key, false, h.Kinds...)
+			if h.FailSig != "" {
+				run.Fail(h.FailSig, h.FailWhat, h.Rep)
+			}
 			continue
 		}
 		sh := shards[h.Kind]
